@@ -464,6 +464,16 @@ impl<T: BitWrite> PackedWrite for T {
         value: i64,
     ) -> Result<(), Error> {
         let bytes = value.to_be_bytes();
+
+        if bit_len == 0 || bit_len as usize > bytes.len() * BYTE_LEN {
+            return Err(ErrorKind::BitLenNotInRange(
+                bit_len,
+                1_u64,
+                (bytes.len() * BYTE_LEN) as u64,
+            )
+            .into());
+        }
+
         let bits_offset = (bytes.len() * BYTE_LEN) - bit_len as usize;
         self.write_bits_with_offset(&bytes[..], bits_offset)
     }
